@@ -389,7 +389,7 @@ fn show(c: &Case) -> serde_json::Value {
 }
 
 fn stages(tier: Tier) -> Vec<Box<dyn Stage>> {
-    vec![gen_stage_show("history", RULE, tier.pick(480, 8000), 250, case_strategy, check, show)]
+    vec![gen_stage_show("history", RULE, tier.pick(1600, 20_000), 250, case_strategy, check, show)]
 }
 
 pub fn def() -> PropDef {
